@@ -7,14 +7,15 @@
             Lower/RtFns.v  runtime / generated list functions as actions
    FULL      C05_balancedb_correct, C05_balanced_released_once, C05_actions_balanced_on_every_exit,
              C05_runtime_fns_balanced, C05_concat_callers_balanced, C05_former_witnesses_balanced,
+             C05_compile_ok + C05_program_balanced (the decidable fragment fprogram of Lower/CompileOk.v),
              C05_program_balanced_bounded (bound = the enumerated family of 19866 skeletons)
    PARTIAL   C05_program_balanced_partial (all skeleton programs whose compiled actions pass the static
              discipline — decidable, evaluated on every generated program by the check); the unbounded
-             compile-level lemma (cexpr_ok / cstmt_ok, stated in Lower/CompileOk.v) is not proved
+             cases of cexpr_ok / cstmt_ok outside the fragment (listed in Lower/CompileOk.v) are not proved
    OLD CODE  C05_old_concat_functions_refuted documents the repaired defects on definitions named *_old *)
 From Coq Require Import List NArith Bool.
 Import ListNotations.
-From DDP Require Import Rt.Heap Rt.HeapProofs Lower.Own Lower.OwnCheck Lower.OwnProofs Lower.RtFns Lower.CompileBounded.
+From DDP Require Import Rt.Heap Rt.HeapProofs Lower.Own Lower.OwnCheck Lower.OwnProofs Lower.RtFns Lower.CompileBounded Lower.CompileOk.
 Local Open Scope nat_scope.
 
 (* ---- the judge of the real ledgers ---------------------------------------------------------- *)
@@ -75,6 +76,34 @@ Theorem C05_program_balanced_partial :
     program_ok P = true -> run_program fuel oracle P = Some L -> balanced L.
 Proof. exact program_ok_balanced. Qed.
 Print Assumptions C05_program_balanced_partial.
+
+(* FULL for the fragment `fprogram` (decidable): expressions literal / variable / element read / unused temporaries
+   (Länge, gleich) / slice / Text concatenation with temporary or variable left operand / short-circuit `und`, `oder`;
+   statements declaration, expression statement (discarded result), block, `Wenn` with both arms.  Every program of the
+   fragment that the model compiles passes the static discipline, so every normally terminating run — any oracle, any
+   fuel — has a balanced ledger.  (Assignment, `falls`, list/struct literals, calls, loops and their exits are NOT in
+   this fragment: see C05_program_balanced_bounded / _partial and the list in Lower/CompileOk.v.) *)
+Theorem C05_compile_ok :
+  forall P, fprogram P = true -> compile P <> None -> program_ok P = true.
+Proof. exact compile_ok. Qed.
+Print Assumptions C05_compile_ok.
+
+Theorem C05_program_balanced :
+  forall P fuel oracle L, fprogram P = true -> run_program fuel oracle P = Some L -> balanced L.
+Proof. exact program_balanced_fragment. Qed.
+Print Assumptions C05_program_balanced.
+
+Example C05_program_balanced_nonvacuous :
+  let P := mkProg [] (SSeq (SDecl 0 (EConcat (ELit 6%N) (ELit 3%N)))
+                     (SSeq (SIf (EAnd (EUse1 (EConcat (EVar 0) (ELit 2%N))) (EUse2 (EVar 0) (EDerive (EVar 0) 2%N)))
+                                (SBlock (SSeq (SDecl 1 (EConcat (EVar 0) (EVar 0))) (SExpr (EDerive (EVar 1) 2%N))))
+                                (SBlock (SExpr (ELit 4%N))))
+                           (SExpr (EPart 0 1)))) in
+  fprogram P = true /\ exists L, run_program 0 [true; true] P = Some L /\ L <> [] /\ balanced L.
+Proof.
+  cbn zeta. split; [reflexivity|]. eexists. split; [vm_compute; reflexivity|]. split; [discriminate|].
+  apply balancedb_correct. vm_compute. reflexivity.
+Qed.
 
 (* FULL for an explicitly bounded family (the bound is the enumeration `family`, 19866 skeleton programs: 11 non-primitive
    expressions x 4 conditions x the ownership roles x every loop form x every exit from an inner scope — fallthrough,
